@@ -89,7 +89,7 @@ def observe(argv0, argv):
 
     try:
         cfgs = config.ArgumentParser(argv0).parse_args(list(argv))
-    except Exception as e:
+    except (Exception, SystemExit) as e:  # argparse ends the process with SystemExit: that aborts the analysis too
         return ("exc", type(e).__name__, str(e)[:200])
     dflt = [c for c in cfgs if c.pass_name == "default"]
     if len(dflt) != 1:
@@ -314,7 +314,7 @@ def _cmd_shard(seed, n, known):
 
             try:
                 ref = load({"directory": root, "file": "main.c", "arguments": argv})
-            except Exception as e:
+            except (Exception, SystemExit) as e:  # argparse ends the process with SystemExit: that aborts the analysis too
                 return [make_violation(f"load_database:exception:{type(e).__name__}", {"argv": argv}, "loads", str(e)[:200])]
             for style, text in (("shlex.join", shlex.join(argv)), ("double-quote", render_dq(argv)), ("backslash", render_bs(argv))):
                 words = sh_split(text)
@@ -323,7 +323,7 @@ def _cmd_shard(seed, n, known):
                     continue
                 try:
                     got = load({"directory": root, "file": "main.c", "command": text})
-                except Exception as e:
+                except (Exception, SystemExit) as e:  # argparse ends the process with SystemExit: that aborts the analysis too
                     vs.append(make_violation(f"command-form:{style}:exception:{type(e).__name__}", {"argv": argv, "command": text}, "same entries as the arguments form", str(e)[:200]))
                     continue
                 if got != ref:
